@@ -536,6 +536,11 @@ def reiterable_contract(loader, prop):
     return out
 
 
+#: component reads of a timedelta that are meant: (file, attribute) -> why
+SPAN_COMPONENT_EXEMPT = {
+    ("reactivex/testing/marbles.py", "microseconds"): "messages_to_records: the non-number branch is dead (parse() returns float seconds)",
+}
+
 #: subscribe calls that name no scheduler on purpose
 SCHEDULER_EXEMPT = [
     ("reactivex/observable/connectableobservable.py", "source.subscribe(observer)", "auto_connect subscribes the observer to the connectable (a subject: nothing is scheduled)"),
@@ -558,11 +563,21 @@ def run_local(desc):
     results = []
     functions = {}
     for rel in desc.get("files", []):
-        if not (rel.startswith("reactivex/operators/") or rel.startswith("reactivex/observable/")) or rel.endswith("__init__.py") or "/mixins/" in rel:
+        if rel.endswith("__init__.py") or not rel.endswith(".py"):
             continue
         try:
             m = loader.load_file(rel)
         except (OSError, SyntaxError):
+            continue
+        # a time span counts WHOLE: it is converted by the scheduler (to_seconds / to_timedelta / to_datetime, C36) or by total_seconds() - never
+        # through a component of a timedelta (.seconds / .microseconds / .days drop the days, the fraction or the sign)
+        comp = [n for n in ast.walk(m.tree) if isinstance(n, ast.Attribute) and isinstance(n.ctx, ast.Load) and n.attr in ("seconds", "microseconds", "days")
+                and (rel, n.attr) not in SPAN_COMPONENT_EXEMPT]
+        results.append({"id": f"{rel}::time-spans-are-converted-whole", "verdict": "proved" if not comp else "refuted", "backend": "frame-analysis", "model": {}, "path": [],
+                        "seconds": 0.0, "kind": "frame",
+                        "detail": "" if not comp else "; ".join(f"line {n.lineno}: `{ast.unparse(n)}`" for n in comp[:4]) + " - a component of a timedelta, not the span: "
+                        "days, fractions of a second or the sign are lost (timer(timedelta(days=1)) would fire at once)"})
+        if not (rel.startswith("reactivex/operators/") or rel.startswith("reactivex/observable/")) or "/mixins/" in rel:
             continue
         for st in m.tree.body:
             if not isinstance(st, ast.FunctionDef):
